@@ -13,7 +13,7 @@ static const int BIG = 150;  // "B": a budget that lets the default run finish i
 struct Exec
 {
     Cfg cfg;
-    std::vector<std::string> hist;  // S<k> | SB | C | Q | P1 | P2 | D
+    std::vector<std::string> hist;  // S<k> | SB | C | Q | P1 | P2 | D | X
     std::map<size_t, int> dev;
     std::string json() const
     {
@@ -79,6 +79,10 @@ static void execute(const Exec &e, const vo::Fail &fail, Result *res = nullptr)
     };
     vf::Hash obs;
     bool first = true, unwound = false;
+    // "X" = the user empties the definition's solution list (ProblemDefinition::clearSolutionPaths) without touching the planner: a
+    // continued solve() must then report again at least what it had reported ("can only keep or improve the reported solution")
+    bool droppedExact = false;
+    ob::PlannerSolution droppedTop(nullptr);
     try
     {
         for (auto &op : e.hist)
@@ -136,6 +140,35 @@ static void execute(const Exec &e, const vo::Fail &fail, Result *res = nullptr)
                     fail(kk, w + " [history step " + op + "]");
                 };
                 vo::checkStatus(*P, st, before, pl, tag, cur.get());
+                // "a status that truthfully describes what the problem definition now holds": Invalid start / Invalid goal only when
+                // the definition really has no valid start / goal state (asked of single-state and multi-state goals only)
+                {
+                    auto sv = (ob::PlannerStatus::StatusType)st;
+                    // classified by what preceded the call: a first solve, a continued one, or one after clearQuery()
+                    size_t opIndex = &op - &e.hist[0];
+                    std::string prevOp = opIndex > 0 ? e.hist[opIndex - 1] : "";
+                    std::string ctx = prevOp.empty() ? "|first-solve" : prevOp == "Q" ? "|after-clearQuery" : prevOp == "C" ? "|after-clear" : (prevOp[0] == 'P' ? "|after-switch" : "|continued");
+                    auto usable = [&](const ob::State *x) { return space->satisfiesBounds(x) && P->isValid(x); };
+                    if (sv == ob::PlannerStatus::INVALID_START)
+                    {
+                        bool any = false;
+                        for (unsigned i = 0; i < cur->getStartStateCount(); ++i)
+                            any = any || usable(cur->getStartState(i));
+                        if (any)
+                            tag("C03|invalid-start-status-with-valid-start|" + pl + ctx, "solve() returned Invalid start although the problem definition has a valid start state");
+                    }
+                    if (sv == ob::PlannerStatus::INVALID_GOAL)
+                    {
+                        bool any = false;
+                        if (auto *g1 = dynamic_cast<ob::GoalState *>(cur->getGoal().get()))
+                            any = usable(g1->getState());
+                        else if (auto *gn = dynamic_cast<ob::GoalStates *>(cur->getGoal().get()))
+                            for (size_t i = 0; i < gn->getStateCount(); ++i)
+                                any = any || usable(gn->getState(i));
+                        if (any)
+                            tag("C03|invalid-goal-status-with-valid-goal|" + pl + ctx, "solve() returned Invalid goal although the goal state is valid");
+                    }
+                }
                 size_t now = cur->getSolutionCount();
                 for (auto &sol : cur->getSolutions())
                 {
@@ -155,6 +188,17 @@ static void execute(const Exec &e, const vo::Fail &fail, Result *res = nullptr)
                             }
                 }
             staleDone:
+                if (droppedExact)
+                {
+                    bool exactNow = now > 0 && !cur->getSolutions()[0].approximate_;
+                    if (!exactNow)
+                        fail("C03|resume-loses-solution|" + pl, "the planner had reported an exact solution; after ProblemDefinition::clearSolutionPaths() a continued solve() reports " +
+                                                                    std::string(now ? "only an approximate one" : "nothing") + " [history step " + op + "]");
+                    else if (!betterOrEqualTop(droppedTop, cur->getSolutions()[0], cur->getOptimizationObjective()))
+                        fail("C03|resume-worsens-solution|" + pl + "|after-clearSolutionPaths", "after ProblemDefinition::clearSolutionPaths() a continued solve() reports a worse solution than before [history step " + op + "]");
+                    droppedExact = false;
+                    droppedTop = ob::PlannerSolution(nullptr);  // release the path: its states count as live otherwise
+                }
                 if (hadTop && now > 0 && !betterOrEqualTop(topBefore, cur->getSolutions()[0], cur->getOptimizationObjective()))
                     fail("C03|resume-worsens-solution|" + pl, "a continued solve() made the best reported solution worse [history step " + op + "]");
                 obs.add((int)(ob::PlannerStatus::StatusType)st);
@@ -168,8 +212,18 @@ static void execute(const Exec &e, const vo::Fail &fail, Result *res = nullptr)
                                 obs.addd(d);
                 }
             }
+            else if (op == "X")
+            {
+                if (cur->getSolutionCount() > 0 && !cur->getSolutions()[0].approximate_ && switchKind != "setProblemDefinition")
+                {
+                    droppedExact = true;
+                    droppedTop = cur->getSolutions()[0];
+                }
+                cur->clearSolutionPaths();
+            }
             else if (op == "C")
             {
+                droppedExact = false;
                 P->planner->clear();
                 rememberQuery(cur);
                 // same definition stays set; its solutions were reported by the forgotten search: start from a clean slate
@@ -180,11 +234,13 @@ static void execute(const Exec &e, const vo::Fail &fail, Result *res = nullptr)
             }
             else if (op == "Q")
             {
+                droppedExact = false;
                 P->planner->clearQuery();
                 cur->clearSolutionPaths();
             }
             else if (op == "P1" || op == "P2")
             {
+                droppedExact = false;
                 rememberQuery(cur);
                 ob::ProblemDefinitionPtr pd;
                 if (op == "P2")
@@ -230,6 +286,7 @@ static void execute(const Exec &e, const vo::Fail &fail, Result *res = nullptr)
     {
         fail("C03|exception|" + pl, std::string("exception: ") + ex.what());
     }
+    droppedTop = ob::PlannerSolution(nullptr);
     if (res)
         res->obs = obs.h;
     // teardown: planner, definitions, space information; then the counting space must hold no live state
@@ -267,6 +324,7 @@ static std::vector<std::vector<std::string>> histories(int k, bool thorough)
         {S, "P2", "SB"},
         {"SB", "C", S},
         {S, "P1", "SB"},
+        {S, "SB", "X", "SB"},  // the user empties the solution list, then a continued solve with the full budget
         {S, "S0"},        // resumed with a condition that is already true: whatever is re-reported must still be described truthfully
         {S, "S1", "S0"},  // a resume too short to get anywhere, then an expired one
     };
